@@ -11,9 +11,9 @@ func init() {
 			{Pkg: "events", Harness: "notifier", Weight: 3},
 		},
 		QuickS: 30, ThoroughS: 900,
-		Rule:  "each run draws 2-4 actors x 1-4 operations: Trigger with unique arguments / Hook (optionally WithMaxTriggerCount, optionally on a worker pool) / Unhook on one Event1[int] (optionally with an event-level max trigger count); Trigger of two targets / LinkTo(target|nil) for a linked event; OnTrigger / unsubscribe / Trigger on promise.Event and Event1; Listener / Notify / Wait / Deregister on two values of a valuenotifier; plus a schedule; distinct = distinct (workload, schedule, event log) hash; non-trivial = at least two recorded decisions",
-		Real:  []string{"runtime/event (Event1, Hook, options, LinkTo)", "runtime/promise (Event, Event1)", "runtime/valuenotifier", "runtime/workerpool (pooled hooks)", "ds/orderedmap, ds/shrinkingmap"},
-		Stubs: commonStubs,
+		Rule:   "each run draws 2-4 actors x 1-4 operations: Trigger with unique arguments / Hook (optionally WithMaxTriggerCount, optionally on a worker pool) / Unhook on one Event1[int] (optionally with an event-level max trigger count); Trigger of two targets / LinkTo(target|nil) for a linked event; OnTrigger / unsubscribe / Trigger on promise.Event and Event1; Listener / Notify / Wait / Deregister on two values of a valuenotifier; plus a schedule; distinct = distinct (workload, schedule, event log) hash; non-trivial = at least two recorded decisions",
+		Real:   []string{"runtime/event (Event1, Hook, options, LinkTo)", "runtime/promise (Event, Event1)", "runtime/valuenotifier", "runtime/workerpool (pooled hooks)", "ds/orderedmap, ds/shrinkingmap"},
+		Stubs:  commonStubs,
 		Assume: []string{"before/after clauses are judged on non-overlapping call intervals (global step numbers); overlapping calls may go either way", "pooled hooks are judged when the pool has drained (quiescence)", "bounded: <=4 actors x <=4 operations"},
 	})
 }
